@@ -36,14 +36,14 @@ var (
 // Reset attaches (on=true) or detaches the harness; call it at the start of every
 // execution from inside the bubble (a fresh condition variable is created).
 func Reset(on bool) {
+	// pollers of an abandoned (wedged) bubble stay parked on the old condition
+	// variable for ever: waking them from another bubble is a fatal runtime error.
 	mu.Lock()
-	old := cond
 	enabled = on
 	epoch++
 	parked = 0
 	cond = sync.NewCond(&mu)
 	mu.Unlock()
-	old.Broadcast()
 }
 
 // Sleep parks the caller until the next Tick (harness attached) or sleeps (detached).
